@@ -32,6 +32,7 @@ pub struct Rep {
     samples: Vec<String>,
     distinct: HashSet<u64>,
     notes: Vec<String>,
+    inconclusive: Vec<String>,
     pub sample_cap: usize,
     case_ctr: u64,
     journal: Option<String>,
@@ -59,6 +60,7 @@ impl Rep {
             samples: Vec::new(),
             distinct: HashSet::new(),
             notes: Vec::new(),
+            inconclusive: Vec::new(),
             sample_cap: 10,
             case_ctr: 0,
             journal: std::env::var("PVH_JOURNAL").ok(),
@@ -110,6 +112,13 @@ impl Rep {
     pub fn note(&mut self, s: &str) {
         if !self.notes.iter().any(|n| n == s) {
             self.notes.push(s.to_string());
+        }
+    }
+
+    /// Something prevented a verdict for part of the run (watchdog, harness limit): reported as INCONCLUSIVE, never as a violation.
+    pub fn inconclusive(&mut self, reason: &str) {
+        if self.inconclusive.len() < 5 {
+            self.inconclusive.push(reason.to_string());
         }
     }
 
@@ -173,6 +182,9 @@ impl Rep {
         }
         for n in &self.notes {
             writeln!(out, "N\t{}", esc(n)).unwrap();
+        }
+        for n in &self.inconclusive {
+            writeln!(out, "I\t{}", esc(n)).unwrap();
         }
         let mut d: Vec<&u64> = self.distinct.iter().collect();
         d.sort();
